@@ -25,6 +25,32 @@ import itertools
 from netlist import Netlist
 from litex.soc.interconnect import wishbone
 
+
+
+def _memoize_tracer():
+    """Performance only: Migen's `trace_back` asks `get_var_name(frame)` for every stack frame of every Signal that
+    is created, and the py3.12 replacement installed by envshim disassembles the frame's whole code object each
+    time (~1 ms; 0.1 s per wishbone.Interface).  The answer depends only on (code object, f_lasti), so it is
+    memoised here.  Applied once, after envshim.install()."""
+    import migen.fhdl.tracer as tracer
+    f = tracer.get_var_name
+    if getattr(f, "_memo", False):
+        return
+    cache = {}
+
+    def get_var_name(frame):
+        k = (frame.f_code, frame.f_lasti)
+        try:
+            return cache[k]
+        except KeyError:
+            v = cache[k] = f(frame)
+            return v
+    get_var_name._memo = True
+    tracer.get_var_name = get_var_name
+
+
+_memoize_tracer()
+
 M_FIELDS = ("cyc", "stb", "we", "adr", "dat_w", "sel", "cti", "bte")
 S_FIELDS = ("ack", "err", "dat_r")
 NM, NS = len(M_FIELDS), len(S_FIELDS)
@@ -274,6 +300,26 @@ def make_xbar(n, decs, register=False, data_width=8, adr_width=2, timeout_arg=No
     return WbFabric(kw.pop("name", name), "xbar", mod, masters, slaves, decs, lean_open, register=register, bus=bus, **kw)
 
 
+def make_arbiter(n, data_width=8, adr_width=2, **kw):
+    """`wishbone.Arbiter(masters, target)` alone = shared model with one slave that matches every address."""
+    masters, slaves = _ifaces(n, data_width, adr_width), _ifaces(1, data_width, adr_width)
+    mod = wishbone.Arbiter(masters, slaves[0])
+    lean_open = "shared %d 1 0 none %d %d all" % (n, data_width, _addr_width(data_width, adr_width))
+    return WbFabric(kw.pop("name", "Arbiter %dx1/%db" % (n, data_width)), "shared", mod, masters, slaves, [DecAll()],
+                    lean_open, **kw)
+
+
+def make_decoder(decs, register=False, data_width=8, adr_width=2, **kw):
+    """`wishbone.Decoder(master, slaves, register)` alone = shared model with one master."""
+    m = len(decs)
+    masters, slaves = _ifaces(1, data_width, adr_width), _ifaces(m, data_width, adr_width)
+    mod = wishbone.Decoder(masters[0], [(d.fn(masters[0]), s) for d, s in zip(decs, slaves)], register=register)
+    lean_open = "shared 1 %d %d none %d %d %s" % (m, int(register), data_width, _addr_width(data_width, adr_width),
+                                                 " ".join(d.word() for d in decs))
+    return WbFabric(kw.pop("name", "Decoder 1x%d%s/%db" % (m, " reg" if register else "", data_width)), "shared", mod,
+                    masters, slaves, decs, lean_open, register=register, **kw)
+
+
 def make_p2p(data_width=8, adr_width=2, **kw):
     masters, slaves = _ifaces(1, data_width, adr_width), _ifaces(1, data_width, adr_width)
     mod = wishbone.InterconnectPointToPoint(masters[0], slaves[0])
@@ -481,9 +527,17 @@ class FabricMonitor:
                     if bool(to_s[j][0]) != exp:
                         return "R2: owner %d drives cyc=%d adr=%d but slave %d sees cyc=%d" % (o, ms[o][0], ms[o][3], j, to_s[j][0])
         else:
-            # R2 for the crossbar: a slave whose arbiter points at a requesting master must show the cycle; a master
-            # whose address matches nothing must appear nowhere (covered by R1's decode condition).
+            # R2 for the crossbar: the master an arbiter points at is recognisable by its non-cyc signals (forwarded
+            # even while idle); the slave must see cyc exactly when that master drives cyc with a matching address.
+            # (A cycle matching no decoder appears nowhere: R1 demands a matching address for every cyc seen.)
             bus_cand = None
+            for j in range(m):
+                cand = [i for i in range(n) if ms[i][1:] == to_s[j][1:]]
+                if cand:
+                    exps = {bool(ms[i][0]) and inst.decode(j, ms[i][3]) for i in cand}
+                    if len(exps) == 1 and bool(to_s[j][0]) != exps.pop():
+                        return "R2: slave %d is pointed at master %r (cyc=%d adr=%d) but sees cyc=%d" % (
+                            j, cand, ms[cand[0]][0], ms[cand[0]][3], to_s[j][0])
         # ---- R3/R4: answers ---------------------------------------------------------------------------------
         timeout_fired = bool(error)
         if timeout_fired and inst.timeout is None:
